@@ -746,6 +746,9 @@ func (c *compiler) evalCallExpression(node *ast.CallExpression) (interface{}, er
 		}
 
 		rc := reflect.ValueOf(c)
+		if !rc.IsValid() {
+			return nil, fmt.Errorf("'%s' is nil, cannot call '%s'", node.Callee.String(), node.Function.String())
+		}
 		mname := node.Function.String()
 		if i, ok := node.Function.(*ast.Identifier); ok {
 			mname = i.Value
@@ -802,6 +805,9 @@ func (c *compiler) evalCallExpression(node *ast.CallExpression) (interface{}, er
 	rt := rv.Type()
 	if rt.Kind() != reflect.Func {
 		return nil, fmt.Errorf("%+v (%T) is an invalid function", node.String(), rt)
+	}
+	if rv.IsNil() {
+		return nil, fmt.Errorf("%+v is a nil function", node.String())
 	}
 	rtNumIn := rt.NumIn()
 	isVariadic := rt.IsVariadic()
